@@ -8,9 +8,11 @@ Pointwise contracts, gene by gene (g ranges over the genes):
 C11: strict(g) => accepted (completeness); accepted => floor_ok(g) (soundness w.r.t. the floors);
 with exact penetrance accepted <=> strict(g).
 
-KNOWN FINDING S-4 (kept as a failing clause of approx_penetrance_test / penetrance_tests): the
-"absolutely valid" shortcut accepts distance^2 < 1e-10 without consulting the floors, so a gene
-slightly BELOW a floor is accepted when the strict threshold is within 1e-5 of that floor.
+FINDING S-4 (FIXED in /repo 4344378): the "absolutely valid" shortcut accepted distance^2 < 1e-10
+without consulting the floors, so a gene slightly BELOW a floor was accepted when the strict
+threshold is within 1e-5 of that floor.  The floor clause is now proved unconditionally; the
+generators keep producing thresholds within 1e-6 of their floors (`tight`) and the former
+witnesses, which now have to pass.
 """
 from pyvc.contracts import contract
 from pyvc.types import record
@@ -150,8 +152,6 @@ def _gen_approx(rng, size):
     return d
 
 
-TRUE_DIST = "(" + Q1T + " + " + QDT + " + " + FT + ")"
-
 APPROX_PARAMS = dict(q1_score='Arr[Real]', qdiff_score='Arr[Real]', log2_fold='Arr[Real]',
                      q1_th='Real', q1_min_th='Real', qdiff_th='Real', qdiff_min_th='Real',
                      log2_fold_th='Real', log2_fold_min_th='Real', n_valid='Int')
@@ -172,44 +172,24 @@ APPROX_COMMON = dict(
     },
 )
 
+def _gen_approx_with_witness(rng, size):
+    if rng.random() < 0.05:
+        import numpy as np           # the former S-4 witness
+        return dict(q1_score=np.array([0.499995]), qdiff_score=np.array([0.9]), log2_fold=np.array([2.0]),
+                    q1_th=0.5, q1_min_th=0.499999, qdiff_th=0.7, qdiff_min_th=0.1, log2_fold_th=1.0,
+                    log2_fold_min_th=0.8, n_valid=rng.choice([0, 1]))
+    return _gen_approx(rng, size)
+
+
 contract(
     M + 'approx_penetrance_test',
     properties=['C11'],
-    native=dict(gen=_gen_approx),
+    native=dict(gen=_gen_approx_with_witness, weight=2),
     ensures=[
         "len(result) == len(q1_score)",
         # C11 completeness: every gene that passes the strict thresholds is accepted
         "all(implies(" + STRICT + ", result[g]) for g in range(len(q1_score)))",
-        # soundness w.r.t. the floors as far as it holds: a gene below a floor is accepted only
-        # through the shortcut `distance_sq < 1e-10` (see the view #floors)
-        "all(implies(result[g] and not " + FLOOR_OK + ", " + TRUE_DIST + " < 1.0e-10) "
-        "for g in range(len(q1_score)))",
-    ],
-    **APPROX_COMMON,
-)
-
-def _s4_witness_approx():
-    import numpy as np
-    return dict(q1_score=np.array([0.499995]), qdiff_score=np.array([0.9]), log2_fold=np.array([2.0]),
-                q1_th=0.5, q1_min_th=0.499999, qdiff_th=0.7, qdiff_min_th=0.1, log2_fold_th=1.0,
-                log2_fold_min_th=0.8, n_valid=0)
-
-
-# the witness class of S-4: some gene lies BELOW a floor and yet within the tolerance of the strict
-# corner (distance^2 < 1e-10 - only possible when a strict threshold is within 1e-5 of its floor)
-S4_CLASS = "any(not " + FLOOR_OK + " and " + TRUE_DIST + " < 1.0e-10 for g in range(len(q1_score)))"
-
-contract(
-    M + 'approx_penetrance_test#floors',
-    properties=['C11'],
-    native=dict(gen=_gen_approx),
-    known_findings=[dict(
-        id='S-4', exclude=S4_CLASS, witness=_s4_witness_approx,
-        what="approx_penetrance_test accepts a gene below a floor when distance^2 to the strict corner < 1e-10")],
-    ensures=[
-        # C11 soundness w.r.t. the floors: an accepted gene lies on or above every floor.
-        # FAILS on the class S4_CLASS - finding S-4: `absolutely_valid = distance_sq < 1e-10` does not
-        # look at the floors.  Kept in a separate view so that no caller's proof assumes it.
+        # C11 soundness w.r.t. the floors: an accepted gene lies on or above every floor
         "all(implies(result[g], " + FLOOR_OK + ") for g in range(len(q1_score)))",
     ],
     **APPROX_COMMON,
@@ -255,12 +235,10 @@ contract(
         "implies(exact, all(result[g] == " + _from_pij(STRICT) + " for g in range(len(pij_1))))",
         # completeness
         "all(implies(" + _from_pij(STRICT) + ", result[g]) for g in range(len(pij_1)))",
-        # soundness w.r.t. the floors: exact mode (thresholds above their floors) ...
-        "implies(exact and not " + BAD_ORDER + ", all(implies(result[g], " + _from_pij(FLOOR_OK) +
+        # soundness w.r.t. the floors (thresholds above their floors: validated in approximate mode,
+        # a hypothesis in exact mode)
+        "implies(not " + BAD_ORDER + ", all(implies(result[g], " + _from_pij(FLOOR_OK) +
         ") for g in range(len(pij_1))))",
-        # ... approximate mode: see approx_penetrance_test#floors (finding S-4); what holds:
-        "all(implies(result[g] and not " + _from_pij(FLOOR_OK) + ", " + _from_pij(TRUE_DIST) + " < 1.0e-10) "
-        "for g in range(len(pij_1)))",
     ],
 )
 
@@ -382,12 +360,8 @@ contract(
         ") for g in range(" + NG + ")))",
         # completeness
         "all(implies(" + INLIST + " and " + _from_stats(STRICT) + ", result[g]) for g in range(" + NG + "))",
-        # soundness w.r.t. the floors: exact mode ...
-        "implies(exact_penetrance and " + SANE + ", all(implies(result[g], " + _from_stats(FLOOR_OK) +
-        ") for g in range(" + NG + ")))",
-        # ... approximate mode: see approx_penetrance_test#floors (finding S-4); what holds:
-        "implies(" + SANE + ", all(implies(result[g] and not " + _from_stats(FLOOR_OK) + ", " +
-        _from_stats(TRUE_DIST) + " < 1.0e-10) for g in range(" + NG + ")))",
+        # soundness w.r.t. the floors
+        "implies(" + SANE + ", all(implies(result[g], " + _from_stats(FLOOR_OK) + ") for g in range(" + NG + ")))",
         "same(precomputed_stats, old(precomputed_stats))",
     ],
 )
@@ -403,21 +377,6 @@ ORIG_LIST = "(old(valid_gene_idx) is None or g in old(valid_gene_idx))"
 P_OK = "(result[0][g] > -1.0 * ln(p_th))"
 
 
-def _pen_facts(mask):
-    """facts about a penetrance mask computed with the CURRENT valid_gene_idx (loop invariant)"""
-    return [
-        "len({m}) == ".format(m=mask) + NG,
-        "implies(" + SANE + ", all(implies({m}[g], ".format(m=mask) + INLIST + ") for g in range(" + NG + ")))",
-        "implies(exact_penetrance and " + SANE + ", all({m}[g] == (".format(m=mask) + INLIST + " and " +
-        _from_stats(STRICT) + ") for g in range(" + NG + ")))",
-        "all(implies(" + INLIST + " and " + _from_stats(STRICT) + ", {m}[g]) for g in range(".format(m=mask) + NG + "))",
-        "implies(exact_penetrance and " + SANE + ", all(implies({m}[g], ".format(m=mask) + _from_stats(FLOOR_OK) +
-        ") for g in range(" + NG + ")))",
-        "implies(" + SANE + ", all(implies({m}[g] and not ".format(m=mask) + _from_stats(FLOOR_OK) + ", " +
-        _from_stats(TRUE_DIST) + " < 1.0e-10) for g in range(" + NG + ")))",
-    ]
-
-
 def _post_facts(mask):
     """what the last penetrance mask satisfies, stated against the ORIGINAL gene list (so that the
     facts do not mention the loop-carried, re-assigned `valid_gene_idx`)"""
@@ -429,8 +388,7 @@ def _post_facts(mask):
         ") for g in range(" + NG + ")))",
         "all(implies(" + ORIG_LIST + " and pvalue_valid[g] and " + _from_stats(STRICT) + ", %s[g]) " % m +
         "for g in range(" + NG + "))",
-        "implies(exact_penetrance and " + SANE + ", all(implies(%s[g], " % m + _from_stats(FLOOR_OK) +
-        ") for g in range(" + NG + ")))",
+        "implies(" + SANE + ", all(implies(%s[g], " % m + _from_stats(FLOOR_OK) + ") for g in range(" + NG + ")))",
     ]
 
 
@@ -440,6 +398,23 @@ def _gen_score(rng, size):
              boring_t=rng.choice([None, 2.5]), big_nu=None,
              n_valid_min=rng.choice([0, 1, 2, 10]))
     return d
+
+
+def _gen_score_s4(rng, size):
+    """half of the cases: a fold change 5e-6 below its floor with the strict threshold 1e-6 above it
+    (the former S-4 witness class: such a gene must NOT be recorded)"""
+    import numpy as np
+    if rng.random() < 0.5:
+        return _gen_score(rng, size)
+    n = rng.randint(1, 3)
+    floor = rng.choice([0.5, 0.8])
+    a = dict(mean=np.zeros(n), var=np.full(n, 1.0e-4), n_cells=50, ge1=np.zeros(n, dtype=int))
+    b = dict(mean=np.full(n, floor - 0.000005), var=np.full(n, 1.0e-4), n_cells=50, ge1=np.full(n, 50, dtype=int))
+    return dict(node_1='cluster/a', node_2='cluster/b', precomputed_stats={'cluster/a': a, 'cluster/b': b},
+                p_th=0.01, q1_th=0.5, q1_min_th=0.1, qdiff_th=0.7, qdiff_min_th=0.1,
+                log2_fold_th=floor + 0.000001, log2_fold_min_th=floor, n_cells_min=2, boring_t=None, big_nu=None,
+                exact_penetrance=False, n_valid=rng.choice([0, 1, 30]), n_valid_min=rng.choice([0, 10]),
+                valid_gene_idx=None)
 
 
 SCORE_COMMON = dict(
@@ -471,7 +446,7 @@ SCORE_COMMON = dict(
 contract(
     M + 'score_differential_genes',
     properties=['C11'],
-    native=dict(gen=_gen_score),
+    native=dict(gen=_gen_score_s4, weight=2),
     ensures=[
         "len(result[0]) == " + NG + " and len(result[1]) == " + NG + " and len(result[2]) == " + NG,
         # fewer than n_cells_min (default 2) cells on either side: no marker at all
@@ -486,65 +461,12 @@ contract(
         # exact penetrance: nothing else is recorded
         "implies(exact_penetrance and " + SANE + ", all(implies(result[1][g], " + _from_stats(STRICT) +
         ") for g in range(" + NG + ")))",
-        # floors: exact mode here; approximate mode: the view #floors (FAILS, finding S-4; the exact
-        # extent of the deviation - distance^2 < 1e-10 - is proved for penetrance_from_stats)
-        "implies(exact_penetrance and " + SANE + ", all(implies(result[1][g], " + _from_stats(FLOOR_OK) +
-        ") for g in range(" + NG + ")))",
+        # C11: a recorded marker lies on or above every penetrance / fold-change floor
+        "implies(" + SANE + ", all(implies(result[1][g], " + _from_stats(FLOOR_OK) + ") for g in range(" + NG + ")))",
         # direction = sign of the difference of the mean log2(CPM+1)
         "implies(" + ENOUGH + ", all(result[2][g] == (1 if precomputed_stats[node_2]['mean'][g] > "
         "precomputed_stats[node_1]['mean'][g] else 0) for g in range(" + NG + ")))",
         "same(precomputed_stats, old(precomputed_stats))",
     ],
     **SCORE_COMMON,
-)
-
-def _gen_score_s4(rng, size):
-    """half of the cases: a fold change 5e-6 below its floor with the strict threshold 1e-6 above it"""
-    import numpy as np
-    if rng.random() < 0.5:
-        return _gen_score(rng, size)
-    n = rng.randint(1, 3)
-    floor = rng.choice([0.5, 0.8])
-    a = dict(mean=np.zeros(n), var=np.full(n, 1.0e-4), n_cells=50, ge1=np.zeros(n, dtype=int))
-    b = dict(mean=np.full(n, floor - 0.000005), var=np.full(n, 1.0e-4), n_cells=50, ge1=np.full(n, 50, dtype=int))
-    return dict(node_1='cluster/a', node_2='cluster/b', precomputed_stats={'cluster/a': a, 'cluster/b': b},
-                p_th=0.01, q1_th=0.5, q1_min_th=0.1, qdiff_th=0.7, qdiff_min_th=0.1,
-                log2_fold_th=floor + 0.000001, log2_fold_min_th=floor, n_cells_min=2, boring_t=None, big_nu=None,
-                exact_penetrance=False, n_valid=rng.choice([0, 1, 30]), n_valid_min=rng.choice([0, 10]),
-                valid_gene_idx=None)
-
-
-def _s4_witness_score():
-    import numpy as np
-    a = dict(mean=np.zeros(1), var=np.full(1, 1.0e-4), n_cells=50, ge1=np.zeros(1, dtype=int))
-    b = dict(mean=np.full(1, 0.499995), var=np.full(1, 1.0e-4), n_cells=50, ge1=np.full(1, 50, dtype=int))
-    return dict(node_1='cluster/a', node_2='cluster/b', precomputed_stats={'cluster/a': a, 'cluster/b': b},
-                p_th=0.01, q1_th=0.5, q1_min_th=0.1, qdiff_th=0.7, qdiff_min_th=0.1,
-                log2_fold_th=0.500001, log2_fold_min_th=0.5, n_cells_min=2, boring_t=None, big_nu=None,
-                exact_penetrance=False, n_valid=1, n_valid_min=0, valid_gene_idx=None)
-
-
-S4_CLASS_STATS = ("any(not " + _from_stats(FLOOR_OK) + " and " + _from_stats(TRUE_DIST) +
-                  " < 1.0e-10 for g in range(" + NG + "))")
-_floors_common = dict(SCORE_COMMON)
-_floors_common['loops'] = {0: SCORE_COMMON['loops'][0] + [
-    # the extent of S-4, carried through the loop: below a floor only within the tolerance
-    "implies(not keep_going and " + SANE + ", all(implies(penetrance_mask[g] and not " + _from_stats(FLOOR_OK) +
-    ", " + _from_stats(TRUE_DIST) + " < 1.0e-10) for g in range(" + NG + ")))"]}
-
-contract(
-    M + 'score_differential_genes#floors',
-    properties=['C11'],
-    native=dict(gen=_gen_score_s4),
-    known_findings=[dict(
-        id='S-4', exclude=S4_CLASS_STATS, witness=_s4_witness_score,
-        what="score_differential_genes records a marker whose fold change / penetrance is below its floor by < 1e-5")],
-    ensures=[
-        # C11: a recorded marker lies on or above every penetrance / fold-change floor.
-        # FAILS in approximate mode on the class S4_CLASS_STATS - finding S-4 (root cause:
-        # approx_penetrance_test#floors)
-        "implies(" + SANE + ", all(implies(result[1][g], " + _from_stats(FLOOR_OK) +
-        ") for g in range(" + NG + ")))",
-    ],
-    **_floors_common,
 )
